@@ -198,6 +198,7 @@ class CSim:
         c.reb_simulation_get_next_message.restype = ctypes.c_int
         self.sz = ctypes.sizeof(self.P)
         self.off_m, self.off_y, self.off_h = self.P.m.offset, self.P.y.offset, self.P._hash.offset
+        self.off_ap = self.P.ap.offset
 
     def drain(self, sim=None):
         sim = sim or self.sim
@@ -213,7 +214,7 @@ class CSim:
     def state(self):
         s = self.sim
         n, nalloc = s.N, s.N_allocated
-        ps, tail, stale = [], 0, []
+        ps, tail, stale, ap_bad = [], 0, [], []
         if nalloc and self.base():
             buf = ctypes.string_at(self.base(), nalloc * self.sz)
             for i in range(nalloc):
@@ -225,6 +226,9 @@ class CSim:
                 fl = 1 if y != y else 0
                 if i < n:
                     ps.append((ident, h, fl))
+                    ap = struct.unpack_from("<Q", buf, o + self.off_ap)[0]
+                    if ap and ap != ident * 16:
+                        ap_bad.append((i, ident, ap))
                 else:
                     tail = (tail + (ident * 1000003 + h * 7 + fl + 1) * (i + 1)) % DIGEST_MOD
                     if len(stale) < 8:
@@ -244,7 +248,7 @@ class CSim:
                 dcrit = list(struct.unpack("<%dQ" % nd, raw))
             rc = "%d%d" % (1 if rim.recalculate_r_crit_this_timestep else 0, 1 if rim.recalculate_coordinates_this_timestep else 0)
         return dict(N=n, nact=s.N_active, nalloc=nalloc, nvar=s.N_var, troot=1 if s._tree_root else 0,
-                    ps=ps, tbl=tbl, tail=tail, dcrit=dcrit, rc=rc, stale=stale)
+                    ps=ps, tbl=tbl, tail=tail, dcrit=dcrit, rc=rc, stale=stale, ap_bad=ap_bad)
 
     def mk(self, ident, h, geo):
         p = self.P()
@@ -254,6 +258,7 @@ class CSim:
             p.x, p.y, p.z = BOX * 0.75, 0.1 * (ident % 7), 0.0
         p.m = float(ident)
         p._hash = h
+        p.ap = ident * 16 if ident else None      # the user's `ap` pointer: must travel with its particle
         return p
 
     def apply(self, op):
@@ -823,6 +828,11 @@ def run_history(c, rebound, cfg, nops, python_api, stats, lines, expect, meta, h
         if not ok and k == "tupd" and want == out and st["nact"] == before["nact"] and st["nact"] > st["N"] \
                 and (st["N"], st["nvar"], bool(st["troot"]), st["ps"]) == (len(ref.ps), ref.nvar, ref.tree_root, [tuple(p) for p in ref.ps]):
             sig = "F4h:tree-update-eviction-leaves-N_active-above-N"
+        if st["ap_bad"] and not python_api:
+            c.violation("C14:ap-does-not-travel-with-particle", "%s: after %s the ap pointer of the particle at index %d (id %d) is %d" % (
+                "C API", op, st["ap_bad"][0][0], st["ap_bad"][0][1], st["ap_bad"][0][2]), dict(cfg=cfg, history=history))
+        if not python_api:
+            stats["ap_checked"] += sum(1 for q_ in st["ps"] if q_[0])
         inv = lambda q: q["N"] <= q["nalloc"] and (q["nact"] == -1 or 0 <= q["nact"] <= q["N"])
         inv_ok = inv(st) or not inv(before)      # an operation must not *break* the invariants
         if not ok or not inv_ok:
@@ -947,7 +957,9 @@ class MemReplay:
             self.cmd = ["valgrind", "-q", "--error-exitcode=97", "--errors-for-leak-kinds=none", "--leak-check=no", self.exe]
 
     def run(self, histories, timeout=1500):
-        text = replay_text(histories)
+        return self.run_text(replay_text(histories), timeout)
+
+    def run_text(self, text, timeout=1500):
         # qsort(NULL, 0, ..) in reb_update_particle_lookup_table (lookup in a simulation that never had a table) is flagged by
         # UBSan through glibc's nonnull attribute; it touches no memory and is reported in the notes, not as a violation
         supp = os.path.join(os.path.dirname(self.exe), "ubsan.supp")
@@ -962,7 +974,8 @@ class MemReplay:
         rep = q.stderr
         bad = (q.returncode != 0 or "ERROR: AddressSanitizer" in rep or "runtime error" in rep
                or "Invalid read" in rep or "Invalid write" in rep or "uninitialised" in rep)
-        return dict(bad=bad, report=rep[-2500:], ops=len(text), answers=len(q.stdout.splitlines()), rc=q.returncode)
+        return dict(bad=bad, report=rep[-2500:], ops=len(text), answers=len(q.stdout.splitlines()), rc=q.returncode,
+                    out=q.stdout.splitlines())
 
 
 # ----------------------------------------------------------------------------- main
@@ -1028,7 +1041,7 @@ def run(c):
     ok = c.prove(["RV.Props.C14"])
     exe = lean_exe("drv_c14")
 
-    stats = dict(tupd_unexplained=0, ops={}, outs={}, maxN=0, growth={}, dup_removals=0, dup_lookups=0, zero_lookups=0,
+    stats = dict(ap_checked=0, tupd_unexplained=0, ops={}, outs={}, maxN=0, growth={}, dup_removals=0, dup_lookups=0, zero_lookups=0,
                  deviations={}, shapes_clean={}, odd_outs=[])
     lines, expect, meta = [vline], ["variant-set"], [(-1, -1, ("variant",), None)]
     n_c = 600 if c.thorough else 160
